@@ -51,6 +51,11 @@ CHECKS = {
          "Commits, tables, blocks, block indices (built both ways), table profiles (every subset of optional fields), string and uint lists are written by the real encoders over field values at the format's boundaries (empty, newline, non-UTF8, 65535/65536/70000 bytes, rows crossing 64 KiB, 0..3 parents, 7 instants x 5 zones), read back, compared, re-encoded byte-for-byte, saved (key = hash of bytes, idempotent) and fetched; over-limit text must be refused with an error. The packfile header codec is run on every length up to 2^26 (quick) / every 32-bit length (thorough) and on 2^k windows up to 2^63 for all three object types.",
          "Trusted: independent string-list/block encoder; meow hash. The header codec is reached through an overlay-added export file (fail-closed stub when its signatures change). Field lengths away from the 16-bit boundary are not enumerated.",
          "DESIGN.md §4 C06"),
+ "C18": ("exploration",
+         "exhaustive enumeration of read-chunking patterns (all 0/1/2-cut partitions, uniform chunks, data+EOF) over a corpus of valid streams",
+         "For each valid encoded stream of the seed corpus and each reader entry point, every partition of the stream into successive reads with up to 2 cut points (3 for short streams in thorough), uniform 1..8-byte chunks, and both EOF delivery modes is replayed through the real decoder; decoded objects, byte counts and the end-of-stream condition must equal the whole-buffer result. The chunking of a stream is the only nondeterminism a reader sees, and a short read at any single offset is enough to expose a missing read loop.",
+         "Trusted: the chunking reader (40 lines). Zero-byte non-EOF reads are not generated. Streams are the corpus encodings, not all valid streams.",
+         "DESIGN.md §4 C18"),
 }
 
 NOT_YET = {}
